@@ -253,6 +253,68 @@ def asgOp {τ : Type} [Sh τ] (k : String) (a b : τ) : Option String :=
   | "selfswap" => some (sh (swapObj a a).1)
   | _ => none
 
+/-! ### continuations that write through their (reference) argument: the source shows the new value afterwards -/
+def bumpN (x : Nat) : Nat := (x + 1) % 3
+/-- what the source looks like afterwards: bumped iff the continuation was called (the log is not empty) -/
+def afterCall {τ : Type} [Sh τ] (called : Bool) (src bumped : τ) : String := if called then sh bumped else sh src
+def bumpE : Either Nat Nat → Either Nat Nat
+  | .success x => .success (bumpN x)
+  | .failure x => .failure (bumpN x)
+def bumpV (v : V3) : V3 := ⟨v.idx, bumpN (show Nat from v.val)⟩
+
+/-- run `m`, then print the sources as they are after it: `bumped` if the continuation named `site` was called -/
+def runMut {ρ : Type} [Sh ρ] (m : KD ρ) (sites : List String) (srcs : List (String × String)) : String :=
+  let (r, s) := m {}
+  let called := s.log.any fun e => sites.any fun site => e.startsWith (site ++ "(")
+  let res := match r with
+    | .ok v => sh v ++ String.join (srcs.map fun (a, b) => " " ++ (if called then b else a))
+    | .error e => e.name
+  res ++ " | " ++ showLog s.log
+
+def handleMut (toks : List String) : Option String :=
+  match toks with
+  | ["o.map.mut", o, f] => do
+    let o ← tok (Option Nat) o; let f ← tbl Nat 3 f
+    pure (runMut (Opt.map o (fn1 "f" f)) ["f"] [(sh o, sh (o.map bumpN))])
+  | ["o.bind.mut", o, f] => do
+    let o ← tok (Option Nat) o; let f ← tbl (Option Nat) 3 f
+    pure (runMut (Opt.bind o (fn1 "f" f)) ["f"] [(sh o, sh (o.map bumpN))])
+  | ["o.maybe.mut", o, d, t] => do
+    let o ← tok (Option Nat) o; let d ← tokx Nat d; let t ← tbl Nat 3 t
+    pure (runMut (Opt.maybe o (thunk "d" d) (fn1 "t" t)) ["t"] [(sh o, sh (o.map bumpN))])
+  | ["o.maybe_void.mut", o] => do
+    let o ← tok (Option Nat) o
+    pure (runMut (Opt.maybeVoid o (fun x => lg "t" [x])) ["t"] [(sh o, sh (o.map bumpN))])
+  | ["o.apply2.mut", o1, o2, f] => do
+    let o1 ← tok (Option Nat) o1; let o2 ← tok (Option Nat) o2; let f ← tbl Nat 9 f
+    pure (runMut (Opt.apply2 (fn2 "f" f) o1 o2) ["f"] [(sh o1, sh (o1.map bumpN)), (sh o2, sh (o2.map bumpN))])
+  | ["o.mm2.mut", o1, o2, d, t] => do
+    let o1 ← tok (Option Nat) o1; let o2 ← tok (Option Nat) o2; let d ← tokx Nat d; let t ← tbl Nat 9 t
+    pure (runMut (Opt.maybeMulti2 (thunk "d" d) (fn2 "t" t) o1 o2) ["t"] [(sh o1, sh (o1.map bumpN)), (sh o2, sh (o2.map bumpN))])
+  | ["e.map.mut", e, f] => do
+    let e ← tok (Either Nat Nat) e; let f ← tbl Nat 3 f
+    pure (runMut (Either.map e (fn1 "f" f)) ["f"] [(sh e, sh (bumpE e))])
+  | ["e.bind.mut", e, f] => do
+    let e ← tok (Either Nat Nat) e; let f ← tbl (Either Nat Nat) 3 f
+    pure (runMut (Either.bind e (fn1 "f" f)) ["f"] [(sh e, sh (bumpE e))])
+  | ["e.mapf.mut", e, f] => do
+    let e ← tok (Either Nat Nat) e; let f ← tbl Nat 3 f
+    pure (runMut (Either.mapFailure e (fn1 "f" f)) ["f"] [(sh e, sh (bumpE e))])
+  | ["e.match.mut", e, ff, fs] => do
+    let e ← tok (Either Nat Nat) e; let ff ← tbl Nat 3 ff; let fs ← tbl Nat 3 fs
+    pure (runMut (Either.match_ e (fn1 "ff" ff) (fn1 "fs" fs)) ["ff", "fs"] [(sh e, sh (bumpE e))])
+  | ["e.apply2.mut", e1, e2, f] => do
+    let e1 ← tok (Either Nat Nat) e1; let e2 ← tok (Either Nat Nat) e2; let f ← tbl Nat 9 f
+    pure (runMut (Either.apply2 (fn2 "f" f) e1 e2) ["f"] [(sh e1, sh (bumpE e1)), (sh e2, sh (bumpE e2))])
+  | ["v.match.mut", v, fa, fb, fc] => do
+    let v ← tok V3 v; let fa ← tbl Nat 3 fa; let fb ← tbl Nat 3 fb; let fc ← tbl Nat 3 fc
+    pure (runMut (Var.match_ v (fun i (x : Nat) =>
+      if i.val = 0 then fn1 "a" fa x else if i.val = 1 then fn1 "b" fb x else fn1 "c" fc x)) ["a", "b", "c"] [(sh v, sh (bumpV v))])
+  | ["v.apply1.mut", v, f] => do
+    let v ← tok V3 v; let f ← tbl Nat 9 f
+    pure (runMut (Var.apply (fun i (x : Nat) => fn2 "f" f i.val x) v) ["f"] [(sh v, sh (bumpV v))])
+  | _ => none
+
 /-- `variant<A, thrower>` that may be valueless: `A<d>`, `T`, `V` -/
 abbrev V2 := VarV 2 (fun _ => Nat)
 
@@ -297,7 +359,7 @@ def handleVV (toks : List String) : Option String :=
   | ["vv.compare", l, r, res] => do
     let l ← tok V2 l; let r ← tok V2 r; let res ← tok Bool res
     pure (run1 (VarV.compare l r (fun i _ _ => do lg "c" [i.val]; pure res)))
-  | _ => none
+  | _ => handleMut toks
 
 /-! ### operations -/
 def handle1 (toks : List String) : Option String :=
